@@ -37,6 +37,10 @@
 #include "g72x.h"
 #include "g72x_priv.h"
 
+#ifdef LIBSNDFILE_VERIF
+long sf_verif_g72x_limit_violations = 0 ;
+#endif
+
 static G72x_STATE * g72x_state_new (void) ;
 static int unpack_bytes (int bits, int blocksize, const unsigned char * block, short * samples) ;
 static int pack_bytes (int bits, const short * samples, unsigned char * block) ;
@@ -594,6 +598,15 @@ update (
 		state_ptr->ap += (0x200 - state_ptr->ap) >> 4 ;
 	else
 		state_ptr->ap += (-state_ptr->ap) >> 4 ;
+
+#ifdef LIBSNDFILE_VERIF
+	/* Read-only observation: the limits ITU-T G.726 puts on the adaptive predictor and scale factor state
+	** (|a2| <= 0.75, |a1| <= 15/16 - a2, 544 <= yu <= 5120, 0 <= ap <= 512). */
+	if (state_ptr->a [1] > 12288 || state_ptr->a [1] < -12288
+			|| state_ptr->a [0] > 15360 - state_ptr->a [1] || state_ptr->a [0] < - (15360 - state_ptr->a [1])
+			|| state_ptr->yu < 544 || state_ptr->yu > 5120 || state_ptr->ap < 0 || state_ptr->ap > 512)
+		sf_verif_g72x_limit_violations ++ ;
+#endif
 
 	return ;
 } /* update */
